@@ -24,9 +24,9 @@ import (
 type ROp struct {
 	Kind string `json:"kind"` // addct | addpt | mulx | mulxself | mulxadd | reduce
 	Reg  int    `json:"reg,omitempty"`
-	A    int    `json:"a,omitempty"`     // exponent of X^a - 1
-	Pt   GSpec  `json:"pt,omitempty"`    // plaintext of addpt
-	PtAs string `json:"ptAs,omitempty"`  // poly | int64 | uint64
+	A    int    `json:"a,omitempty"`    // exponent of X^a - 1
+	Pt   GSpec  `json:"pt,omitempty"`   // plaintext of addpt
+	PtAs string `json:"ptAs,omitempty"` // poly | int64 | uint64
 }
 
 // OpsCase is one program.
@@ -290,6 +290,6 @@ func lastOpsKey(trace []string) string {
 	return strings.Join(ks, "+")
 }
 
-var propOps = h.NewProp("TestPropRGSWOps", h.Budget{Quick: 400, Thorough: 6000}, genOps, runOps)
+var propOps = h.NewProp("TestPropRGSWOps", h.Budget{Quick: 800, Thorough: 6000}, genOps, runOps)
 
 func TestPropRGSWOps(t *testing.T) { propOps.Check(t) }
